@@ -148,6 +148,8 @@ func runNF5(st *state, line, expect string) (string, string) {
 			cls = "badver"
 		case strings.Contains(e, "flow count out of bounds"):
 			cls = "badcount"
+		case strings.Contains(e, "remaining bytes encountered"):
+			cls = "shortflows" // fewer octets than the header announces: rejected as a whole since the F29 repair
 		}
 		v := "ok"
 		if expect != "noflows" && expect != "-" {
